@@ -14,6 +14,7 @@ an anchor the machinery can no longer recognise.  Nothing here executes pint.
   T4 reelse         `if c: ...return/raise/continue/break` followed by REST  ->  `if c: ... else: REST`
   T6 split-and      `if a and b: X` (no else)  ->  `if a: if b: X`
   T7 de-morgan      `not (a and b)` <-> `not a or not b` (and the dual) in if/while tests
+  T8 rename-nested  nested functions and closure-shared locals renamed (x -> x_nn)
   T5 hoist-args     the arguments of a call used as an expression statement / assigned value / returned value that
                     are themselves calls are NOT hoisted (evaluation order); instead every `return <expr>` whose
                     expression is not a name or constant becomes `ret_tmp = <expr>; return ret_tmp`
@@ -219,6 +220,64 @@ def demorgan(tree):
     return count
 
 
+# ------------------------------------------------------------------ T8
+def rename_nested(tree):
+    """Every function defined inside another function (not methods, not module-level functions) and every local that is
+    shared with such a nested scope through a closure is renamed (x -> x_nn), consistently in the defining scope and
+    in all nested scopes that read it; names declared nonlocal/global, parameters and anything referenced through a
+    string are left alone."""
+    all_ids = {n.id for n in ast.walk(tree) if isinstance(n, ast.Name)}
+    count = 0
+    FN = (ast.FunctionDef, ast.AsyncFunctionDef)
+    for outer in [n for n in ast.walk(tree) if isinstance(n, FN)]:
+        own = list(own_nodes(outer))
+        if any(isinstance(n, ast.Call) and isinstance(n.func, ast.Name) and n.func.id in ("locals", "vars", "eval", "exec") for n in ast.walk(outer)):
+            continue
+        a = outer.args
+        params = {x.arg for x in a.args + a.kwonlyargs + a.posonlyargs} | ({a.vararg.arg} if a.vararg else set()) | ({a.kwarg.arg} if a.kwarg else set())
+        nested_defs = [n for n in own if isinstance(n, FN)]
+        if not nested_defs:
+            continue
+        declared = {x for n in ast.walk(outer) if isinstance(n, (ast.Global, ast.Nonlocal)) for x in n.names}
+        stored = {n.id for n in own if isinstance(n, ast.Name) and isinstance(n.ctx, (ast.Store, ast.Del))} | {n.name for n in nested_defs}
+        used_in_nested = set()
+        for nd in [n for n in own if isinstance(n, SCOPES)]:
+            for x in ast.walk(nd):
+                if isinstance(x, ast.Name):
+                    used_in_nested.add(x.id)
+        cand = {x for x in stored if (x in used_in_nested or x in {n.name for n in nested_defs}) and x not in params and x not in declared and not x.startswith("__")}
+        strings = {c.value for c in ast.walk(tree) if isinstance(c, ast.Constant) and isinstance(c.value, str)}
+        cand = {x for x in cand if x not in strings}
+        # a nested scope that binds the same name itself (its own local / parameter) shadows it: skip such names
+        for nd in [n for n in ast.walk(outer) if isinstance(n, SCOPES) and n is not outer]:
+            if isinstance(nd, FN + (ast.Lambda,)):
+                aa = nd.args
+                shadow = {x.arg for x in aa.args + aa.kwonlyargs + aa.posonlyargs} | ({aa.vararg.arg} if aa.vararg else set()) | ({aa.kwarg.arg} if aa.kwarg else set())
+                shadow |= {x.id for x in own_nodes(nd) if isinstance(x, ast.Name) and isinstance(x.ctx, (ast.Store, ast.Del))} if isinstance(nd, FN) else set()
+                cand -= shadow
+            elif isinstance(nd, (ast.ListComp, ast.SetComp, ast.DictComp, ast.GeneratorExp)):
+                for g in nd.generators:
+                    cand -= {x.id for x in ast.walk(g.target) if isinstance(x, ast.Name)}
+            elif isinstance(nd, ast.ClassDef):
+                cand -= {x.id for x in ast.walk(nd) if isinstance(x, ast.Name) and isinstance(x.ctx, ast.Store)}
+        mapping = {}
+        for x in sorted(cand):
+            new = x + "_nn"
+            while new in all_ids:
+                new += "n"
+            mapping[x] = new
+        if not mapping:
+            continue
+        for n in ast.walk(outer):
+            if isinstance(n, ast.Name) and n.id in mapping:
+                n.id = mapping[n.id]
+                count += 1
+            elif isinstance(n, FN) and n is not outer and n.name in mapping:
+                n.name = mapping[n.name]
+                count += 1
+    return count
+
+
 TRANSFORMS = {
     "T0": ("unparse", lambda t: 1),
     "T1": ("rename-locals", rename_locals),
@@ -228,6 +287,7 @@ TRANSFORMS = {
     "T5": ("hoist-returns", hoist_returns),
     "T6": ("split-and", split_and),
     "T7": ("de-morgan", demorgan),
+    "T8": ("rename-nested", rename_nested),
 }
 
 
